@@ -181,7 +181,7 @@ func (x *exec) paceTo(c *hclient, d, fill int, what string) bool {
 	if x.abort.Load() {
 		return false
 	}
-	seq, ok, attempts := c.Paced(d, fill, pacedWait, pacedTries)
+	seq, ok, attempts := c.Paced(d, fill, pacedWait, pacedTries+c.TakeTries())
 	if attempts > 1 {
 		x.label("paced-retried")
 		if envSet("VERIF_DEBUG") {
@@ -398,6 +398,7 @@ func (x *exec) failFirst(c *hclient, kind int) {
 		x.mu.Unlock()
 		c.Send(seq, d, 8+i)
 	}
+	c.AddTries(n)
 	// give the failing set-up time to finish; a datagram that meets the dying entry is rightly dropped (the
 	// paced rule retransmits), this only keeps the scenario short
 	switch {
@@ -473,6 +474,7 @@ func (x *exec) phase0() {
 			}
 			for i := 0; i < 1+int(c.ID)%2; i++ {
 				c.Send(c.NextSeq(), s.D1, 8+i)
+				c.AddTries(1)
 			}
 		}
 	})
@@ -567,6 +569,31 @@ func (x *exec) crowd() {
 		total += n
 	}
 	each(func(i int, c *hclient) { c.BurstFills(bursts[i].dests, bursts[i].fills) })
+	// The fence datagram queues behind the whole burst; its one-second bound is not meant to cover that. Wait
+	// until the harness-owned ends have seen the bursts arrive (or arrivals stop for a while), then fence.
+	// What is lost is still judged against x.once at the end.
+	ids := map[uint16]bool{}
+	for _, c := range cs {
+		ids[c.ID] = true
+	}
+	count := func() (n int) {
+		for _, a := range x.w.Arrivals() {
+			if a.Err == nil && ids[a.Tag.Session] {
+				n++
+			}
+		}
+		return
+	}
+	base, last, lastChange := count(), -1, time.Now()
+	for deadline := time.Now().Add(20 * time.Second); time.Now().Before(deadline); time.Sleep(20 * time.Millisecond) {
+		n := count()
+		if n != last {
+			last, lastChange = n, time.Now()
+		}
+		if n-base >= total || time.Since(lastChange) > 500*time.Millisecond {
+			break
+		}
+	}
 	// drained: the uplink of a session is FIFO
 	each(func(i int, c *hclient) { x.paceTo(c, x.p.Sessions[i].D1, 8, "behind the crowd burst") })
 	kind := "no-failed-setup"
@@ -707,7 +734,7 @@ func (x *exec) runOps(c *hclient, ops []planOp, sess planSession) {
 				if i%2 == 1 {
 					d = o.Alt
 				}
-				seq, ok, attempts := c.Paced(d, o.Fill, pacedWait, pacedTries)
+				seq, ok, attempts := c.Paced(d, o.Fill, pacedWait, pacedTries+c.TakeTries())
 				if attempts > 1 {
 					x.label("paced-retried")
 					if envSet("VERIF_DEBUG") {
@@ -1000,7 +1027,7 @@ func runPlan(p *plan, workDir string) (out outcome) {
 				if x.abort.Load() {
 					return
 				}
-				seq, ok, n := c.Paced(d, 8, pacedWait, pacedTries)
+				seq, ok, n := c.Paced(d, 8, pacedWait, pacedTries+c.TakeTries())
 				if n > 1 {
 					x.label("paced-retried")
 					if envSet("VERIF_DEBUG") {
